@@ -52,7 +52,7 @@ def ty_path(names_args, qself=None):
 
 def gen_type(rng, tps, depth=0):
     """Returns (source, ast, mentions_type_param: bool by construction)."""
-    k = rng.below(16 if depth < 2 else 4)
+    k = rng.below(18 if depth < 2 else 4)
     if k == 0 or not tps and k in (1, 2):
         n = rng.choice(["i32", "u8", "String", "bool"])
         return n, ty_path([(n, "n")]), False
@@ -95,6 +95,12 @@ def gen_type(rng, tps, depth=0):
         return f"<{s} as IntoIterator>::Item", ty_path([("IntoIterator", "n"), ("Item", "n")], qself=a), m
     if k == 14:
         return f"Wrap<'static, {s}, 3>", ty_path([("Wrap", f"(a o (ty {a}) o)")]), m
+    # qualified paths whose `Self` type is concrete and whose parameter sits in the trait's or the associated type's
+    # arguments (added after seed C04-j: the path part must be searched even when the qself type has no parameter)
+    if k == 15:
+        return f"<u8 as Conv<{s}>>::Out", ty_path([("Conv", f"(a (ty {a}))"), ("Out", "n")], qself=ty_path([("u8", "n")])), m
+    if k == 16:
+        return f"<Fam as Family>::Of<{s}>", ty_path([("Family", "n"), ("Of", f"(a (ty {a}))")], qself=ty_path([("Fam", "n")])), m
     return f"[{s}]", f"(e {a})", m
 
 
